@@ -25,9 +25,9 @@ from harness import common
 from harness.common import fhex
 
 GEN_MODULES = ['llh', 'llhtdm']
-MODEL_TARGETS = ['model/M_Llh.vo', 'model/M_LlhPipe.vo', 'model/M_LlhTdm.vo']
+MODEL_TARGETS = ['model/M_Llh.vo', 'model/M_LlhPipe.vo', 'model/M_LlhTdm.vo', 'model/M_LlhX.vo']
 PROOF_TARGETS = ['proofs/P_LlhK.vo', 'proofs/P_LlhValue.vo', 'proofs/P_LlhC1.vo', 'proofs/P_LlhCompose.vo',
-                 'proofs/P_LlhTdm.vo']
+                 'proofs/P_LlhTdm.vo', 'proofs/P_LlhX.vo']
 LEVEL = 'proof'
 RULE = ('event sets with N\' in 0..3000 selected of N >= N\' events, 1-3 sources, 1-3 ratio factors; ratios '
         'log-uniform in [1e-6,1e13] plus exact 0 and zero-background events; compositions single / product / '
@@ -52,6 +52,8 @@ TRUSTED = [
     'stacked ratio: the hypothesis "every (source,event) pair listed once" is discharged for the tables stored by '
     'TrialDataManager.initialize_trial by importing C05\'s development (props/Prop_C01_sel.v); that theorem is '
     're-established only in runs in which C05\'s files build (otherwise a note, counted as not discharged)',
+    'the -inf / NaN region (C01_ieee_*) is stated in the special-value number system M_LlhX.v (no rounding, no '
+    'signed zeros); its agreement with numpy on ns = N and ns > N is observed by the malformed stream',
     'event counts: the order of the statements of initialize_trial (default N before the selection) is in the '
     'hand model M_LlhTdm.v, validated by the correspondence (n_events=None with a removing selection)',
     'python oracle of the predicates (fractions + math.log1p + math.fsum)',
@@ -596,6 +598,16 @@ def run_impl(ctx, case, opa, jobs):
         jobs.append((case, ns, v, impl_R, model_line(case, ns, opa)))
     if case['malformed']:
         ctx.count('malformed:' + case['malformed'])
+        # C01_ieee_at_N / C01_ieee_beyond_N on the implementation: ns = N -> -inf (N' < N) or NaN (N' = N); ns > N -> NaN
+        if case['malformed'] in ('ns=N', 'ns>N') and 0 < opa:
+            nsel = len(sel_ids(case))
+            for ns, v in zip(case['ns'], vals):
+                want = 'nan' if (ns > N or nsel == N) else '-inf'
+                got = 'nan' if math.isnan(v) else ('-inf' if v == float('-inf') else repr(v))
+                if got != want:
+                    ctx.violation(SITE, 'special-value-region-differs', f'ns={ns!r}, N={N}, N\'={nsel}: value {got}, expected {want}',
+                                  case=dict(lean(case), ns=[ns]), impl=got, model=want,
+                                  predicate='ns = N: -inf if N\' < N else NaN; ns > N: NaN')
         return
     ctx.count('kind:' + case['kind'] + ('+selection' if case['selected'] is not None else ''))
     nsel = len(sel_ids(case))
